@@ -107,7 +107,8 @@ def run_case(case):
     v = case['v']
     genargs.run_prior(case.get('prior'))
     # 1. the legal vector is accepted
-    outdir = genargs.fresh_outdir('legal')
+    nested = v['seed'] % 2 == 1
+    outdir = genargs.fresh_outdir('legal', nested)
     argv = genargs.build_argv(v, outdir)
     status, code, err = genargs.run_generator(argv, v['seed'])
     if status != 'ok':
@@ -118,7 +119,7 @@ def run_case(case):
     classes = set()
     n = 0
     for name, w in perturbations(v):
-        outdir = genargs.fresh_outdir('pert')
+        outdir = genargs.fresh_outdir('pert', nested)
         argv = _argv(w, outdir)
         status, code, err = genargs.run_generator(argv, v['seed'])
         n += 1
@@ -132,10 +133,10 @@ def run_case(case):
         if 'usage:' not in err:
             raise Violation('no_usage_message', '%s: %r rejected without a usage message: %r'
                             % (name, argv, err[-200:]))
-        if os.path.exists(outdir):
+        if os.path.exists(genargs.outdir_top(outdir)):
             raise Violation('directory_created_on_reject', '%s: %r was rejected but %s exists'
-                            % (name, argv, outdir))
-    labels = ['mp=' + v['mp']] + ['optional:' + k for k in genargs.OPTIONAL[v['mp']] if k in v]
+                            % (name, argv, genargs.outdir_top(outdir)))
+    labels = ['mp=' + v['mp'], 'nested_outdir' if nested else 'flat_outdir'] + ['optional:' + k for k in genargs.OPTIONAL[v['mp']] if k in v]
     return Result(len(classes) == 3 or (v['mp'] == 'spa' and len(classes) == 2), labels,
                   {'perturbations': n, 'legal_runs': 1})
 
